@@ -43,6 +43,7 @@ struct World {
     Val *stored_ref = nullptr;  // where a receiver saw the value stored by the last by-value / rvalue call
     bool capture = false;
     int hook_registrations = 0;  // how often hook_up called the registration function
+    long replay_value = 0;       // non-zero: the registration function emits this value before it returns
     int hook_reawait = 0;        // 1: awaiting the hook_up emitter again after its disconnect is in progress, 2: it answered
     std::vector<int> cb_rec[2];  // callbacks: [0] returns true, [1] returns false
     int cb_connected[2] = {0, 0};
@@ -149,6 +150,9 @@ struct Model {
                 started[NL] = true;
                 waiting[NL] = true;
                 hook_col = true;
+                // every other time the registration function emits at once (a source that replays its current value to a
+                // new subscriber): the hooked listener receives that value first
+                if (next_val & 1) expect[NL].push_back(next_val++);
                 break;
             case HOOK_CALL: {
                 int v = next_val++;
@@ -184,6 +188,9 @@ static cocls::async<void> listener(World &w, int k) {
 static cocls::async<void> hook_listener(World &w) {
     auto e = Sig::hook_up([&w](Sig::collector c) {
         w.hook_registrations++;
+        if (w.replay_value) {
+            c(w.replay_value);  // emitted during the registration (the signal keeps the value); the suspend point is discarded
+        }
         w.hook_col.emplace(std::move(c));
     });
     for (;;) {
@@ -319,6 +326,7 @@ static void run_case(seqx::Runner &R, const std::vector<int> &seq) {
                 case COPY_COL: w->col2.emplace(*w->col); break;
                 case HOOKUP:
                     w->started[NL] = true;
+                    if (next_val & 1) w->replay_value = next_val++;
                     hook_listener(*w).detach();
                     if (!w->hook_col) {
                         R.fail("signal/hook_up-not-registered", "hook_up() did not hand a collector to the registration function on the first co_await");
